@@ -192,7 +192,7 @@ class ServerSet(object):
     self._on_join = on_join or noop
     self._on_leave = on_leave or noop
     self._notification_queue = Queue(0)
-    self._watching = False
+    self._watching = None  # czxid of the incarnation of zk_path being watched
     self._cb_blocker = self._CallbackBlocker()
     self._member_filter = member_filter or true
     self._member_factory = member_factory or Member.from_node
@@ -265,19 +265,25 @@ class ServerSet(object):
 
   def _data_changed(self, data, stat):
     # stat == None -> the node was deleted (or doesnt exist)
+    # The czxid tells incarnations of the path apart: if the path was deleted
+    # and re-created before we were told, the children watch may have ended on
+    # the vanished path, so the new incarnation needs a watch of its own.
+    czxid = stat.czxid if stat is not None else None
+    if czxid == self._watching:
+      return
+    self._watching = czxid
     if stat is None:
-      self._watching = False
       # Every member is gone.  Report that through the notification worker (as
       # an empty child list) so it is ordered after any update the worker is
       # still processing.
-      self._on_set_changed(())
-    elif not self._watching:
-      self._watching = True
-      self._begin_watch()
+      self._on_set_changed((), None)
+    else:
+      self._begin_watch(czxid)
 
-  def _begin_watch(self):
+  def _begin_watch(self, czxid):
     self._log.info('Beginning to watch path %s' % self._zk_path)
-    ChildrenWatch(self._zk, self._zk_path, self._on_set_changed)
+    ChildrenWatch(self._zk, self._zk_path,
+                  lambda children: self._on_set_changed(children, czxid))
 
   def _notification_worker(self):
     """'Atomically' raise notifications for join / leave.
@@ -318,13 +324,17 @@ class ServerSet(object):
       except Exception:
         self._log.exception('Error in notification worker.')
 
-  def _on_set_changed(self, children):
+  def _on_set_changed(self, children, czxid):
     """Called when the children of the watched ZK node change.
     Offloads most work to a greenlet worker thread to do the actual notificaiton.
 
     Args:
       children - The new set of child nodes.
+      czxid - The incarnation of the watched ZK node the watch was started for.
     """
+    if czxid != self._watching:
+      # A watch left over from an earlier incarnation of the path: end it.
+      return False
     children = set([c for c in children if self._member_filter(c)])
     self._nodes = children
     self._log.debug("Queueing notifications")
